@@ -148,6 +148,11 @@ def configs(tier):
         if uses(b1, ('b', 0)):
             out.append(dict(srcs=('bool', 'bool', 'cnt'),
                             blocks=(('cmp', (('s', 2, 'obj'),)), b1), fb=None))
+    # L: large networks (one change makes the simulator evaluate tens of blocks in one go)
+    for shape in ('chain', 'fan', 'ladder', 'tree'):
+        for n in ((5, 17, 33, 70) if tier == 'quick' else (5, 16, 17, 18, 33, 49, 70, 130)):
+            for order in ('asc', 'desc', 'stride'):
+                out.append(dict(large=(shape, n, order)))
     if tier == 'thorough':
         # three blocks with inverted-name shortcuts and constants everywhere
         for b0 in block_options(2, 0, gk, ('obj', 'not'), ('obj', 'not'), (), None, ordered=False):
@@ -478,10 +483,107 @@ def cfg_key(cfg):
     return (cfg['srcs'], cfg['blocks'], cfg['fb'])
 
 
+def run_large(cfg, acc):
+    """
+    chain: b[i] = not b[i-1];  fan: b[i] = xor(a, b) / and(a, b) / or(a, b) by i % 3;
+    ladder: b[i] = xor(b[i-1], a for i = n//2, else a constant), b[0] = xor(b, True);  tree: b[i] = xor(b[(i-1)//2], b[i-1]).
+    Outputs are compared with the reference at the moment wait_init() returns and whenever the
+    loop is idle after a burst.
+    """
+    shape, n, order = cfg['large']
+    viol = []
+
+    def ref(a, b):
+        out = []
+        for i in range(n):
+            if shape == 'chain':
+                v = not (out[i - 1] if i else a)
+            elif shape == 'fan':
+                v = (nets.xor_fn([a, b]), bool(a and b), bool(a or b))[i % 3]
+            elif shape == 'ladder':
+                v = nets.xor_fn([out[i - 1] if i else b, a if i == n // 2 else not i % 2])
+            else:
+                v = nets.xor_fn([out[(i - 1) // 2], out[i - 1]]) if i else nets.xor_fn([a, b])
+            out.append(v)
+        return out
+    with Sim() as sim:
+        ia = edzed.Input('a', initdef=False)
+        ib = edzed.Input('b', initdef=True)
+        blocks = []
+        for i in range(n):
+            if shape == 'chain':
+                blk = edzed.Not(f'b{i}').connect(blocks[i - 1] if i else ia)
+            elif shape == 'fan':
+                blk = (edzed.Xor, edzed.And, edzed.Or)[i % 3](f'b{i}').connect(ia, ib)
+            elif shape == 'ladder':
+                # (a change must reach a block along a few paths only, or the simulator's work
+                # bound declares the network unstable - see C10)
+                blk = edzed.Xor(f'b{i}').connect(blocks[i - 1] if i else ib,
+                                                ia if i == n // 2 else not i % 2)
+            else:
+                blk = (edzed.Xor(f'b{i}').connect(blocks[(i - 1) // 2], blocks[i - 1]) if i
+                       else edzed.Xor(f'b{i}').connect(ia, ib))
+            blocks.append(blk)
+        perm = {'asc': list(range(n)), 'desc': list(range(n - 1, -1, -1)),
+                'stride': sorted(range(n), key=lambda i: (i * 7) % n if n % 7 else (i * 5) % n)}[order]
+        nets.set_ranks(blocks, perm)
+        sa, sb = edzed.ExtEvent(ia, 'put'), edzed.ExtEvent(ib, 'put')
+
+        def check(a, b, label):
+            exp = ref(a, b)
+            got = [blk.output for blk in blocks]
+            bad = [i for i in range(n) if not same(got[i], exp[i])]
+            if bad:
+                viol.append((f'output-mismatch:large-{shape}',
+                             f"{label}: a={a} b={b}: {len(bad)} of {n} blocks differ from their "
+                             f"function, first b{bad[0]}: {got[bad[0]]!r}, expected {exp[bad[0]]!r}"))
+            return not bad
+
+        async def driver():
+            task = asyncio.create_task(sim.circuit.run_forever())
+            try:
+                await sim.circuit.wait_init()
+            except Exception as err:    # pylint: disable=broad-except
+                viol.append(('start-failed', f"wait_init() raised {err!r}; error={sim.circuit.error!r}"))
+                await stop(sim.circuit)
+                return
+            check(False, True, 'at the moment wait_init() returned')
+            a, b = False, True
+            prev = acc.state((cfg['large'], a, b))
+            for burst in ('a', 'b', 'ab', 'ba', 'a', 'ab', 'b', 'ba'):
+                for ch in burst:
+                    if ch == 'a':
+                        a = not a
+                        sa.send(a)
+                    else:
+                        b = not b
+                        sb.send(b)
+                await sim.loop.idle()
+                acc.count('bursts')
+                if sim.circuit.error is not None or task.done():
+                    viol.append(('simulation-died', f"burst {burst}: {sim.circuit.error!r}"))
+                    break
+                if not check(a, b, f"idle after burst {burst!r}"):
+                    break
+                st = acc.state((cfg['large'], a, b))
+                acc.transition(prev, burst, st)
+                prev = st
+            await stop(sim.circuit)
+            del task
+        sim.run(driver())
+    acc.execs += 1
+    acc.outcome((cfg['large'], tuple(v[0] for v in viol)))
+    return viol
+
+
 def run_config(cfg):
     acc = Acc()
     if 'loopback' in cfg:
         return run_loopback(cfg, acc)
+    if 'large' in cfg:
+        for sig, msg in run_large(cfg, acc)[:2]:
+            acc.violation(f"C01:{sig}", msg, cfg=cfg)
+        return acc
     m = len(cfg['blocks'])
     for perm in itertools.permutations(range(m)):
         viol = run_network(cfg, perm, acc)
